@@ -71,7 +71,7 @@ T = {
          'bounds on shape, length and alphabet as reported in the evidence file'),
 }
 
-READY = ['C02', 'C03', 'C04', 'C05', 'C06', 'C07', 'C08', 'C09', 'C10', 'C11', 'C12', 'C13', 'C14', 'C15', 'C16', 'C17', 'C18', 'C19', 'C20']
+READY = ['C01', 'C02', 'C03', 'C04', 'C05', 'C06', 'C07', 'C08', 'C09', 'C10', 'C11', 'C12', 'C13', 'C14', 'C15', 'C16', 'C17', 'C18', 'C19', 'C20']
 
 NA_REASON = 'check not built yet in this round (planned; see DESIGN.md section 3)'
 
